@@ -290,5 +290,10 @@ def greaterThanOrEqualTo (a b : Value) : Res Value := do
   let e ← equals a b
   or g e
 
+/-- NotEqual: `Equals(other).Not()` -/
+def notEqual (a b : Value) : Res Value := do
+  let e ← equals a b
+  «not» e
+
 end Value
 end CtyModel
